@@ -264,6 +264,50 @@ func init() {
 			}
 			return s
 		},
+		// ReflValuePtr: the data word of a reflect.Value - the pointer itself for
+		// pointer-shaped values, else the address of the value
+		"github.com/elastic/go-structform/internal/unsafe.ReflValuePtr": func(e *Engine, fn *ssa.Function, a []Val) Val {
+			r := a[0].(RV)
+			if r.t == nil {
+				return Ptr{}
+			}
+			switch r.t.Underlying().(type) {
+			case *types.Pointer, *types.Map, *types.Signature, *types.Chan:
+				v := e.rvGet(r)
+				if p, ok := v.(Ptr); ok {
+					return p
+				}
+				if m, ok := v.(*MapObj); ok {
+					c := e.newCell(r.t)
+					c.val = m
+					return Ptr{c: c}
+				}
+				e.unsupported("ReflValuePtr of %T", v)
+			}
+			if r.addr != nil {
+				return Ptr{c: r.addr}
+			}
+			c := e.newCell(r.t)
+			e.store(c, r.v)
+			return Ptr{c: c}
+		},
+		// UnsafeFnPtr: pointer to a fresh variable holding the function value
+		"github.com/elastic/go-structform/internal/unsafe.UnsafeFnPtr": func(e *Engine, fn *ssa.Function, a []Val) Val {
+			i := a[0].(Iface)
+			var t types.Type
+			var v Val
+			if r, ok := i.v.(RV); ok {
+				t, v = r.t, e.rvGet(r)
+			} else {
+				t, v = i.typ, i.v
+			}
+			if t == nil {
+				e.goPanic("reflect: call of reflect.Value.Type on zero Value")
+			}
+			c := e.newCell(t)
+			c.val = v
+			return Ptr{c: c}
+		},
 		"github.com/elastic/go-structform/internal/unsafe.IfcValuePtr": func(e *Engine, fn *ssa.Function, a []Val) Val {
 			i := a[0].(Iface)
 			if i.typ == nil {
